@@ -25,6 +25,7 @@ import (
 	"github.com/llir/llvm/ir/types"
 	"github.com/llir/llvm/ir/value"
 	"github.com/pkg/errors"
+	"strings"
 )
 
 // funcGen is a generator for a given IR function.
@@ -188,5 +189,7 @@ func localIdentOfValue(v local) ir.LocalIdent {
 	if v.IsUnnamed() {
 		return ir.LocalIdent{LocalID: v.ID()}
 	}
-	return ir.LocalIdent{LocalName: v.Name()}
+	// The name is decoded from the identifier: Name wraps numeric names in
+	// quotes (e.g. `"42"`), which is not the key that uses are looked up by.
+	return ir.LocalIdent{LocalName: unquote(strings.TrimPrefix(v.Ident(), "%"))}
 }
